@@ -47,7 +47,7 @@ class DPTValue1ByteUnsigned(DPTNumeric):
             ):
                 raise ValueError(f"Value out of range {cls.value_min}..{cls.value_max}")
             return DPTArray(knx_value)
-        except (ValueError, OverflowError) as err:
+        except (ValueError, TypeError, OverflowError) as err:
             raise ConversionError(
                 f"Could not serialize {cls.dpt_name()}", value=value
             ) from err
@@ -99,7 +99,7 @@ class DPTScaling(DPTNumeric):
             knx_value = round((percent_value - cls.value_min) / delta * 255)
 
             return DPTArray(knx_value)
-        except (ValueError, OverflowError) as err:
+        except (ValueError, TypeError, OverflowError) as err:
             raise ConversionError(
                 f"Could not serialize {cls.dpt_name()}", value=value
             ) from err
